@@ -173,7 +173,7 @@ def run_cmd(params, prefix):
     out = {'points': x.points, 'err': None, 'viol': []}
     sig0 = {'part': 'kill-between-mutations', 'scenario': params['sc']}
     muts = list(store.mutations)
-    out['order'] = hash(tuple((k, n) for k, n, _ in muts))
+    out['order'] = explore.canon_order([(k, n) for k, n, _ in muts])
     if x.err is not None:
         out['err'] = 'hang' if isinstance(x.err, dsched.Hang) else ('capped' if isinstance(x.err, dsched.Horizon) else 'diverged')
         out['errmsg'] = str(x.err)[:200]
